@@ -5,7 +5,8 @@ HTTP/1 (RFC 9112) message-stream parser.  It shares no code with mitmproxy or h1
 
 Strictness (RFC 9112 unless noted):
   * line terminator of the head: CRLF, or a bare LF (§2.2 "MAY recognize a single LF"); a bare CR anywhere in the
-    head (not followed by LF) and NUL make the element invalid (§2.2 "MUST consider that element to be invalid");
+    head (not followed by LF) makes the element invalid (§2.2 "MUST consider that element to be invalid"), so does a
+    NUL in a field value (RFC 9110 §5.5);
   * request-line  = method SP request-target SP HTTP-version   (single SP, HTTP/d.d; method and target are any
     non-empty runs without SP/HTAB/VT/FF/CR/LF: the parser is strict about *framing*, it does not judge whether the
     method is a token or the target a valid URI — a downstream recipient splits the line at SP whatever they are)
@@ -44,7 +45,7 @@ class Parsed:
 
 def _head_lines(data: bytes, pos: int):
     """-> (lines, end) | ("incomplete",) | ("malformed", why).  Lines end with CRLF or LF; the head ends at the first
-    empty line.  A CR not followed by LF, or a NUL, invalidates the head."""
+    empty line.  A CR not followed by LF invalidates the head."""
     lines, i, n = [], pos, len(data)
     while True:
         j = data.find(b"\n", i)
@@ -55,8 +56,6 @@ def _head_lines(data: bytes, pos: int):
             line = line[:-1]
         if b"\r" in line:
             return ("malformed", "bare-cr")
-        if b"\x00" in line:
-            return ("malformed", "nul")
         i = j + 1
         if line == b"":
             return (lines, i)
@@ -80,6 +79,8 @@ def _fields(lines):
         if not TOKEN.match(name):
             return ("ambiguous", "bad-field-name")
         out.append((name, ln[k + 1:].strip(b" \t")))
+    if any(b"\x00" in v for _, v in out):
+        return ("malformed", "nul")          # RFC 9110 §5.5
     return out
 
 
@@ -206,7 +207,7 @@ def _parse_stream(data: bytes, is_request: bool, methods=None, eof=False) -> Par
                 p.stop = ("malformed", "request-line"); break
             msg.update(kind="request", method=parts[0], target=parts[1], version=parts[2])
         else:
-            m = re.fullmatch(rb"(HTTP/[0-9]\.[0-9]) ([0-9]{3})(?: ([^\r\n\x00]*))?", first)
+            m = re.fullmatch(rb"(HTTP/[0-9]\.[0-9]) ([0-9]{3})(?: ([^\r\n]*))?", first)
             if not m:
                 p.stop = ("malformed", "status-line"); break
             msg.update(kind="response", version=m.group(1), status=int(m.group(2)), reason=m.group(3) or b"")
